@@ -296,6 +296,33 @@ def prove_eq(lhs, rhs, hyps, opts):
     return "undecided", "-", "; ".join(details)
 
 
+def _sum_of_squares(t, tm, depth=0):
+    """syntactic certificate: t is built from +, non-negative constants, squares x*x (the same node twice), -(x * -x), and products of such"""
+    if t.op == "c":
+        return t.args[0] >= 0
+    if t.op == "+":
+        return _sum_of_squares(t.args[0], tm) and _sum_of_squares(t.args[1], tm)
+    if t.op == "*":
+        a, b = t.args
+        if a is b:
+            return True
+        return _sum_of_squares(a, tm) and _sum_of_squares(b, tm)
+    if t.op == "neg":
+        u = t.args[0]
+        if u.op == "*":
+            a, b = u.args
+            if (b.op == "neg" and b.args[0] is a) or (a.op == "neg" and a.args[0] is b):
+                return True
+        if u.op == "c":
+            return u.args[0] <= 0
+    return False
+
+
+def _manifestly_nonneg_claim(claim, tm):
+    """claim of the form 0 <= t with t a syntactic sum of squares"""
+    return claim.op == "<=" and claim.args[0].op == "c" and claim.args[0].args[0] == 0 and _sum_of_squares(claim.args[1], tm)
+
+
 def _rewrite_by_equalities(goal, case_hyps, tower, tm):
     """substitute v := rest for every case hypothesis `a == b` whose difference is  c*v + rest  with c a non-zero constant, v a plain
     variable that does not occur in rest (sound: under the hypothesis the two goals are equal)"""
@@ -520,6 +547,9 @@ def _discharge(oname, kind, l, r, hyps, pts, opts, spec):
                 return mk_result(oname, clause, "P", st, be, time.time() - t0, det)
             backends_used.append(be)
         else:
+            if _manifestly_nonneg_claim(terms[0], tm):
+                backends_used.append("syntactic-sos")
+                continue
             v = backends.prove(hy, terms[0], rlimit=opts.get("rlimit", backends.RLIMIT))
             if v.status != "proved":
                 return mk_result(oname, clause, "P", v.status, v.backend, time.time() - t0, v.detail, witness=v.model)
